@@ -419,8 +419,25 @@ def writeKeyStep (st : List ExtXKey × List Line) (key : ExtXKey) : Res (List Ex
       | .panic => .panic
   | none => .ok ([none], out ++ [Line.key none])
 
+/-- some announced key is neither kept nor replaced (same key format) by the keys of the segment -/
+def hasFormat (keys : List ExtXKey) (old : DecryptionKey) : Bool :=
+  keys.any fun k => match k with
+    | some new => normFormat new == normFormat old
+    | none => false
+
+def droppedKey (avail keys : List ExtXKey) : Bool :=
+  avail.any fun a => match a with
+    | some old => !hasFormat keys old
+    | none => false
+
+/-- the explicit reset the writer prints in that case (after the `fix:` for the history
+`KEY f1, KEY f2, segment, KEY NONE, KEY f1, segment`); not needed when the segment carries the
+marker itself -/
+def resetStep (st : List ExtXKey × List Line) (keys : List ExtXKey) : List ExtXKey × List Line :=
+  if droppedKey st.1 keys && !(keys.any (·.isNone)) then ([none], st.2 ++ [Line.key none]) else st
+
 def writeSegStep (st : List ExtXKey × List Line) (s : MediaSegment) : Res (List ExtXKey × List Line) :=
-  match foldRes writeKeyStep st s.keys with
+  match foldRes writeKeyStep (resetStep st s.keys) s.keys with
   | .ok (avail, out) => .ok (avail, out ++ s.writeLines)
   | .err => .err
   | .panic => .panic
